@@ -135,6 +135,62 @@ func genConstTable(w *world) {
 		first = false
 		fmt.Fprintf(&b, "  (%s, %s)", leanStr(k), leanStrList(uses))
 	}
+	b.WriteString("\n]\n\n")
+	// conjunction chains of predicate calls (`return f(a) && g(b) && …`, closures included): Go evaluates them left to
+	// right and stops at the first false one, so the ORDER decides which side effects of the predicates happen
+	b.WriteString("/-- per function: every `&&` chain of three or more calls, as the list of the called functions in evaluation order -/\n")
+	b.WriteString("def andChains : List (String × List (List String)) := [\n")
+	first = true
+	for _, k := range keys {
+		fi := w.byKey[k]
+		fname := fset.Position(fi.decl.Pos()).Filename
+		if strings.HasSuffix(fname, "test_common.go") || strings.Contains(fname, "/mocks/") || strings.HasSuffix(fname, ".pb.go") || strings.HasSuffix(fname, ".pb.gw.go") || strings.Contains(fname, "/client/cli/") {
+			continue
+		}
+		var chains []string
+		ast.Inspect(fi.decl.Body, func(n ast.Node) bool {
+			be, ok := n.(*ast.BinaryExpr)
+			if !ok || be.Op != token.LAND {
+				return true
+			}
+			// flatten the left-leaning chain
+			var parts []ast.Expr
+			var flat func(e ast.Expr)
+			flat = func(e ast.Expr) {
+				if b2, ok := e.(*ast.BinaryExpr); ok && b2.Op == token.LAND {
+					flat(b2.X)
+					flat(b2.Y)
+					return
+				}
+				if p, ok := e.(*ast.ParenExpr); ok {
+					flat(p.X)
+					return
+				}
+				parts = append(parts, e)
+			}
+			flat(be)
+			var names []string
+			for _, pe := range parts {
+				ce, ok := pe.(*ast.CallExpr)
+				if !ok {
+					return false
+				}
+				names = append(names, src(ce.Fun))
+			}
+			if len(names) >= 3 {
+				chains = append(chains, leanStrList(names))
+			}
+			return false
+		})
+		if len(chains) == 0 {
+			continue
+		}
+		if !first {
+			b.WriteString(",\n")
+		}
+		first = false
+		fmt.Fprintf(&b, "  (%s, [%s])", leanStr(k), strings.Join(chains, ", "))
+	}
 	b.WriteString("\n]\n\nend Paloma.Gen.ConstTable\n")
 	emit("ConstTable.lean", b.String())
 }
